@@ -1,5 +1,6 @@
 SPECIFICATION Spec
 CONSTANT FlushBeforeReturn = TRUE
+CONSTANT SkipWhenSame = FALSE
 CONSTANT FormatErrorSurfaces = FALSE
 INVARIANTS MeetsDemand NothingOnFailure ExactOnSuccess UnwritableIsErr OkMeansDelivered ErrMeansNothing Torn EmitPlans
 CHECK_DEADLOCK FALSE
